@@ -261,12 +261,47 @@ PROPS = {
                   "root^2 = x; inverse of 0 is 0; operands unchanged",
         "assumptions": COMMON_ASSUMPTIONS + ["inputs are reduced (< r), as every constructor of the package guarantees"],
     },
+    "C19": {
+        "test": "TestC19", "variant": "elem",
+        "quick": {"shards": 16, "timeout": 1500, "matrix": [{"cpus": c} for c in (16, 1, 3, 16, 2, 5, 16, 7)]},
+        "thorough": {"shards": 16, "timeout": 7200, "matrix": [{"cpus": c} for c in (16, 1, 2, 3, 4, 5, 7, 16)]},
+        "rule": "lists of length {0,1,2,3,NumCPU-1..NumCPU+1,2NumCPU+1,255,256,257,300, uniform<=60} of pointers to private copies "
+                "of pool elements (pool grown by an API history as in C07: mixed normalised / projective / sign-flipped, identity "
+                "included) with aliasing pattern {all distinct, all the same pointer, blocks of 3, two interleaved, random "
+                "repeats}; for the error path one un-normalisable element (zero value or Z=0) at a drawn position, and "
+                "deterministically at EVERY position of lists of length 1,2,3,4,5,8,17. Non-trivial = list with a repeated "
+                "pointer and a non-normalised element; distinct by the case.",
+        "oracle": "ElementsToBytes[i] == e_i.Bytes() == reference compression; BatchToBytesUncompressed[i] == "
+                  "e_i.BytesUncompressedTrusted() == reference x||y; BatchMapToScalarField[i] == single == reference; inputs "
+                  "untouched; BatchNormalize: Z == 1 (hook) and identical affine point afterwards; on the error path an error and "
+                  "every element bit-for-bit unchanged; trusted uncompressed decode returns the same representative",
+        "assumptions": COMMON_ASSUMPTIONS,
+    },
+    "C10": {
+        "test": "TestC10", "variant": "elem",
+        "quick": {"shards": 16, "timeout": 1500},
+        "thorough": {"shards": 16, "timeout": 7200},
+        "rule": "byte strings for MultiProof.Read (576) and IPAProof.Read (544): 17/16 valid encodings + canonical scalar, or uniform "
+                "bytes; one field replaced by {off-curve x, non-subgroup x, x+p alias, p, p-1, 2^256-1, identity, negated valid, one "
+                "flipped bit | scalar r-1, r, r+1, 2r, r+2^119, p, 2^256-1, 0}; truncation at every field boundary +-1 or anywhere; "
+                "1..576 trailing bytes; readers respecting the io.Reader contract: whole buffer, 1 byte at a time, chunk sizes "
+                "{1,2,7,31,32,33,64,100,575,576}, final data returned together with io.EOF, error injected at offset k; writers "
+                "failing at the j-th Write call. Deterministic sweeps: every field x every replacement class, every write-fault "
+                "position, an injected read error at every offset 0..577, trailing bytes through every reader kind. "
+                "Non-trivial = rejected for exactly one reason, or accepted through a non-trivial reader, or a write-fault case.",
+        "oracle": "reference parser: exactly 576 (544 consumed) bytes, every point a valid canonical subgroup encoding (reference "
+                  "decoder), scalar < r, the stream delivers all bytes then EOF; Read succeeds iff the reference accepts; on "
+                  "success decoded fields equal the reference decode, Write reproduces the bytes, Read(Write(p)).Equal(p); a "
+                  "failing writer makes Write return an error; no panic; input untouched",
+        "assumptions": COMMON_ASSUMPTIONS + ["readers and writers respect the io.Reader / io.Writer contracts"],
+    },
     "C16": {
         "test": "TestC16", "variant": "elem",
         "quick": {"shards": 16, "timeout": 900},
         "thorough": {"shards": 16, "timeout": 3600},
         "rule": "byte strings of length 0..64 built by class (boundary values 0,1,r-1,r,r+1,2r,2^253,2^256-1,p... +-3 "
-                "in both endiannesses with zero padding/truncation, uniform, sparse, encodings of uniform scalars) plus a "
+                "in both endiannesses with zero padding/truncation, limb patterns relative to the modulus limbs {q_i-1,q_i,q_i+1,0,2^64-1,"
+                "random} (all 5^4 deterministic combinations swept), uniform, sparse, encodings of uniform scalars) plus a "
                 "deterministic sweep of every boundary value +-2; each string is given to SetBytes, SetBytesLE, "
                 "SetBytesLECanonical and ReadScalar twice on the same buffer. Non-trivial = length != 32 or integer value "
                 "(either endianness) >= r; distinct by the byte string.",
